@@ -285,6 +285,8 @@ class PairEngine:
                                 handled = True
                 if self.snapshot_resets and tp is not None and self._is_clone_of_resource(body, al, t, r):
                     ev[blk.idx].append(('snap', t.line))
+                if self.snapshot_resets and tp is not None and self._overwrites_snapshot(body, al, t, r):
+                    ev[blk.idx].append(('unsnap', t.line))
                 if not handled:
                     # MOD fallback: does the callee write storage through a pointer we pass?
                     for i, o in enumerate(t.args):
@@ -441,6 +443,34 @@ class PairEngine:
                         continue
                     if self._closure_snapshots(cq, cidx):
                         return True
+        return False
+
+    def _overwrites_snapshot(self, body, al, t, r):
+        """The call receives a mutable pointer to a local that holds an entry snapshot and may write through it
+        (a crate function whose MOD summary writes that parameter, or std::mem::swap / replace): the snapshot no
+        longer holds the entry state, a later restore from it does not restore."""
+        name = t.resolved or t.callee or ''
+        ext_writer = name.startswith('std::mem::swap') or name.startswith('std::mem::replace') or \
+            name.startswith('core::mem::swap') or name.startswith('core::mem::replace')
+        local_callee = name in self.prog.bodies
+        if not ext_writer and not local_callee:
+            return False
+        for i, o in enumerate(t.args):
+            tt = al.operand_target(o)
+            if tt is None or not tt[2] or tt[0] == r['root'] or 1 <= tt[0] <= body.nargs or tt[1]:
+                continue
+            lty = body.locals[tt[0]]
+            if lty.startswith('{closure') or lty.startswith('&') or 'closure@' in lty:
+                continue          # a closure environment or a reference is not a stored snapshot value
+            if not self._local_is_snapshot(body, al, tt[0], r, set()):
+                continue
+            if ext_writer:
+                return True
+            try:
+                if list(self.mod.callee_mod(t, i, body)):
+                    return True
+            except Exception:
+                return True
         return False
 
     def _is_clone_of_resource(self, body, al, t, r):
@@ -642,6 +672,8 @@ class PairEngine:
             return {(m, b, sv & (1 if m == 0 else 0)) for (m, b, sv) in st}
         if k == 'restore':
             return {((0 if sv else 1), b, sv) for (m, b, sv) in st}
+        if k == 'unsnap':
+            return {(m, b, 0) for (m, b, sv) in st}
         if k == 'call':
             summ = self.summary.get((e[1], e[2]), frozenset())
             if self.b_after_m:
